@@ -158,7 +158,18 @@ impl Collected {
             }
         };
         self.histories += 1;
-        let source = subject::render(&el, spec.preset, false);
+        let source = match subject::guarded(|| subject::render(&el, spec.preset, false)) {
+            Ok(s) => s,
+            Err(p) => {
+                ctx.report(Violation {
+                    class: "render-panic".into(),
+                    summary: format!("rendering panicked: {} | {}", p, refs[0].xml),
+                    replay: docs_json(&refs),
+                    rank: self.histories,
+                });
+                return true;
+            }
+        };
         let idx = match self.index.get(&source) {
             Some(i) => *i,
             None => {
@@ -264,6 +275,32 @@ pub fn absent_middle_cases(ctx: &Ctx, spec: &FarmSpec, col: &mut Collected, w: u
     }
 }
 
+/// histories d1, d2, d1 over structure-only documents: a child present, absent (other child), present again
+pub fn aba_cases(ctx: &Ctx, spec: &FarmSpec, col: &mut Collected, w: usize) {
+    let mut cfg = plain_cfg(w);
+    cfg.kinds = vec![];
+    cfg.anames = vec![];
+    cfg.both_empty = false;
+    let sp = Space::new(cfg);
+    let alpha: Vec<Node> = (0..sp.len()).map(|i| sp.get(i)).collect();
+    for a in &alpha {
+        for b in &alpha {
+            col.add(ctx, spec, &[decorated(a), decorated(b), decorated(a)]);
+        }
+    }
+}
+
+/// nesting chains: the value sits at depth d
+pub fn deep_cases(ctx: &Ctx, spec: &FarmSpec, col: &mut Collected) {
+    for depth in [3usize, 10, 33, 64, 65, 66, 70, 100] {
+        let mut node = el(&format!("e{}", depth), &["k"], vec![text()]);
+        for level in (0..depth).rev() {
+            node = el(&format!("e{}", level), &[], vec![Item::Elem(node)]);
+        }
+        col.add(ctx, spec, &[decorated(&node)]);
+    }
+}
+
 fn el(name: &str, attrs: &[&str], items: Vec<Item>) -> Node {
     let mut n = Node::new(name);
     for a in attrs {
@@ -301,6 +338,12 @@ pub fn name_cases(ctx: &Ctx, spec: &FarmSpec, col: &mut Collected, names: &[Pool
         } else {
             col.add(ctx, spec, &[decorated(&el("r", &[n, "k"], vec![Item::Elem(el("a", &[n], vec![text()]))]))]);
         }
+    }
+    // a name that the renderer has to number (String, Option, Vec, Self) next to the numbered form
+    for n in ["string", "option", "vec", "self", "String"] {
+        let numbered = format!("{}1", n);
+        col.add(ctx, spec, &[decorated(&el("r", &[], vec![Item::Elem(el(n, &["k"], vec![])), Item::Elem(el(&numbered, &["k"], vec![]))]))]);
+        col.add(ctx, spec, &[decorated(&el("r", &[], vec![Item::Elem(el(&numbered, &["k"], vec![])), Item::Elem(el(n, &["k"], vec![]))]))]);
     }
     // names that are the join of other names with a separator: r/a<sep>b/c next to r/a/b<sep>c
     for sep in [".", "-", "_"] {
@@ -407,12 +450,16 @@ pub fn run_spec(ctx: &Ctx, spec: &FarmSpec, names: &[PoolName]) {
         Tier::Quick => {
             plain_cases(ctx, spec, &mut col, 4, 2, 2);
             absent_middle_cases(ctx, spec, &mut col, 2, true);
+            aba_cases(ctx, spec, &mut col, 2);
+            deep_cases(ctx, spec, &mut col);
             name_cases(ctx, spec, &mut col, names, false);
         }
         Tier::Thorough => {
             plain_cases(ctx, spec, &mut col, 5, 2, 2);
             absent_middle_cases(ctx, spec, &mut col, 2, false);
             absent_middle_cases(ctx, spec, &mut col, 3, true);
+            aba_cases(ctx, spec, &mut col, 3);
+            deep_cases(ctx, spec, &mut col);
             name_cases(ctx, spec, &mut col, names, true);
             // triples of the smallest documents
             plain_cases(ctx, spec, &mut col, 0, 1, 3);
